@@ -316,6 +316,18 @@ def check_r2(facts, rep, crate):
         rep.analysed(b)
         n += 1
         _check_indexed_writer(facts, rep, rid, b)
+        # every reply of this writer is the image decided above: no address is handed to a different writer
+        other = [(bi, t) for bi, t in b.calls() if callee(t) and (callee(t).get("res") or callee(t)["dp"]) in facts.by_dp
+                 and facts.by_dp[(callee(t).get("res") or callee(t)["dp"])].crate is crate
+                 and facts.by_dp[(callee(t).get("res") or callee(t)["dp"])].path.split("::{")[0] != b.path.split("::{")[0]
+                 and callee(t)["name"].startswith(("write_", "send_", "reply"))]
+        if other:
+            t0 = other[0][1]
+            rep.bad(rid, "v5::write_response/delegated", "%s (%s)" % (loc_str(t0["loc"]), b.path),
+                    "for some bound addresses the reply is produced by `%s` instead of the image VER REP RSV ATYP BND.ADDR BND.PORT of this writer: "
+                    "address family / port of those replies are not the bound address (RFC 1928 section 6)" % callee(t0)["name"])
+        else:
+            rep.ok(rid, "v5::write_response/not-delegated", "%s (%s)" % (loc_str(b.loc), b.path), "every reply is built by this writer", nontrivial=False)
     rep.floor(rid, "reply writers", n, 5)
 
 
